@@ -19,6 +19,7 @@ type pr struct {
 }
 
 type kase struct {
+	slot int // worker announcing this case to the progress watchdog (not part of the case)
 	Pairs    []pr   `json:"pairs"`  // in insertion order
 	Flip     []bool `json:"flip"`   // insert pair i as (B,A)
 	Filter   int    `json:"filter"` // 0 nil, 1 all, 2 none, 3 by score (even pairs)
@@ -119,6 +120,7 @@ func mk(f ft, id string) *pals.Feature {
 }
 
 func check(c *enum.Ctx, k kase) {
+	c.Doing(k.slot, k)
 	fail := func(class, f string, a ...interface{}) { c.Fail(class, k, "%s", fmt.Sprintf(f, a...)) }
 	p := pals.NewPiler(0)
 	accepted, comps := reference(k.Pairs)
@@ -334,7 +336,7 @@ func run(c *enum.Ctx) {
 		}
 		return false
 	}
-	doSet := func(set []pr, full bool) {
+	doSet := func(slot int, set []pr, full bool) {
 		states.Add(1)
 		nt := nontrivial(set)
 		for _, pm := range perms(len(set)) {
@@ -356,6 +358,7 @@ func run(c *enum.Ctx) {
 						continue
 					}
 					k := kase{Pairs: ord, Flip: fv, Filter: filt, Redo: -1}
+					k.slot = slot
 					c.Eval()
 					trans.Add(int64(len(set)))
 					check(c, k)
@@ -375,6 +378,7 @@ func run(c *enum.Ctx) {
 								continue
 							}
 							k := kase{Pairs: ord, Flip: fv, Filter: filt, Before: before, Redo: -1}
+							k.slot = slot
 							c.Eval()
 							trans.Add(int64(len(set) + len(before)))
 							check(c, k)
@@ -388,6 +392,7 @@ func run(c *enum.Ctx) {
 					for r := range set {
 						for _, rf := range []bool{false, true} {
 							k := kase{Pairs: ord, Flip: fv, Filter: 3, Twice: true, Redo: r, RedoFlip: rf}
+							k.slot = slot
 							c.Eval()
 							trans.Add(int64(len(set) + 1))
 							check(c, k)
@@ -399,17 +404,17 @@ func run(c *enum.Ctx) {
 	}
 	// one location: all multisets of <=3 pairs; orders always, flips/filters for <=2 pairs (thorough: 3)
 	enum.Parallel(len(pa), func(i int) {
-		doSet([]pr{pa[i]}, true)
+		doSet(i, []pr{pa[i]}, true)
 		for j := i; j < len(pa); j++ {
-			doSet([]pr{pa[i], pa[j]}, true)
+			doSet(i, []pr{pa[i], pa[j]}, true)
 			for l := j; l < len(pa); l++ {
-				doSet([]pr{pa[i], pa[j], pa[l]}, !c.Quick && maxE == 6 && (i+j+l)%7 == 0)
+				doSet(i, []pr{pa[i], pa[j], pa[l]}, !c.Quick && maxE == 6 && (i+j+l)%7 == 0)
 			}
 		}
 	})
 	enum.Parallel(len(pb), func(i int) {
 		for j := i; j < len(pb); j++ {
-			doSet([]pr{pb[i], pb[j]}, true)
+			doSet(i, []pr{pb[i], pb[j]}, true)
 		}
 	})
 	c.MC(states.Load(), trans.Load(), c.Evals())
